@@ -5,7 +5,7 @@ from trie.exceptions import NodeOverrideError
 from .core import HarnessError, Violation, unhx
 from .models.binref import BLANK_HASH, RefBin
 from .hworld import in_handler
-from .simdb import InjectedStorageError, SimDB
+from .simdb import InjectedStorageError, Interrupted, SimDB, make_store
 
 
 def conflicts(model, k):
@@ -21,7 +21,7 @@ class BWorld:
         self.cfg = cfg
         self.st = st
         self.judge = judge
-        self.db = SimDB()
+        self.db = make_store(cfg)
         self.trie = BinaryTrie(self.db)
         self.model = {}
         self.ev = 0
@@ -93,7 +93,7 @@ class BWorld:
         try:
             res = fn()
             status = "ok"
-        except Exception as e:
+        except (Exception, Interrupted) as e:
             status, res = "exc", e
         self.writes = self.disarm()
         return status, res
@@ -109,4 +109,5 @@ class BWorld:
         if root not in self.registry:
             self.registry[root] = dict(self.model)
             self.order.append(root)
-            self.snaps[root] = dict(self.db.raw())
+            if len(self.db.raw()) < 4000:
+                self.snaps[root] = dict(self.db.raw())
